@@ -129,28 +129,48 @@ def expected_image(mj, layouts, th, k_rt):
     return pos, end
 
 
-DUAL = '''struct Inst { @location(0) scale: f32, @location(1) color: vec4<f32>, @location(2) dir: vec3<f32>, @location(3) uv: vec2<u32>, @location(4) w: vec4<i32> }
+DUAL_T = '''struct Inst { @location(%du) scale: f32, @location(%du) color: vec4<f32>, @location(%du) dir: vec3<f32>, @location(%du) uv: vec2<u32>, @location(%du) w: vec4<i32> }
 struct Wrap { n: u32, insts: array<Inst, 2> }
 @group(0) @binding(0) var<uniform> one: Inst;
 @group(0) @binding(1) var<storage, read> many: Wrap;
 @vertex fn vs(i: Inst) -> @builtin(position) vec4<f32> { return i.color; }
 @fragment fn fs() -> @location(0) vec4<f32> { return one.color; }
 '''
+DUAL_MEMBERS = ['scale', 'color', 'dir', 'uv', 'w']
+
+
+def dual_src(locs=(0, 1, 2, 3, 4)):
+    return DUAL_T % tuple(locs)
+
+
+DUAL = dual_src()
+DUAL_SHUFFLED = dual_src((3, 0, 4, 1, 2))
 
 
 def dual_role_check(ctx, seen):
-    """a struct that is a vertex input AND host-shareable, under every combination of the other switches (Glam + encase fixed)"""
+    """a struct that is a vertex input AND host-shareable, under every combination of the other switches (Glam + encase fixed);
+    the @location numbers of its members are symbolic (all of u32, pairwise distinct): encase lays fields out in Rust order, so the
+    emitted fields must stay in WGSL declaration order whatever the locations are"""
     S, c = ctx.S, ctx.S.conv
-    module = S.module(DUAL)
+    d = S.dump(DUAL)
+    module = c.module(d)
+    types = c.get(module, 'types').fields[0].items
+    hi = type_handles(d['module'])['Inst']
+    locs = []
+    for mb, mname in zip(c.get(types[hi], 'inner').fields[0].items, DUAL_MEMBERS):
+        l = z3.BitVec(f'Inst_{mname}_location', 32)
+        c.get(mb, 'binding').fields[0].fields[0] = l
+        locs.append(l)
     o = {k: z3.Bool(k) for k in ('derive_bytemuck_vertex', 'derive_bytemuck_host_shareable', 'derive_serde')}
-    res = ctx.explore('structs/glam+encase/vertex-and-host struct x other switches',
+    res = ctx.explore('structs/glam+encase/vertex-and-host struct x other switches x symbolic locations',
                       lambda it: it.call('structs', [mkref(module), write_options(S.conv, matrix_vector_types='Glam', derive_encase_host_shareable=True, **o)]),
-                      anchors=['structs', 'rust_struct', 'rust_type'])
+                      assume=[z3.Distinct(*locs)], anchors=['structs', 'rust_struct', 'rust_type'])
     want = {'scale': ('scalar', 'Float', []), 'color': ('glam', 'Float', [4]), 'dir': ('glam', 'Float', [3]), 'uv': ('glam', 'Uint', [2]), 'w': ('glam', 'Sint', [4])}
     for pc, kind, out, _ in res:
         ctx.queries['discharged'] += 1
         m = ctx.witness(pc)
         opts = {k: model_value(m, v) for k, v in o.items()}
+        lv = [model_value(m, l) for l in locs]
         if kind == 'panic':
             ctx.queries['unsat'] += 1
             continue
@@ -159,6 +179,8 @@ def dual_role_check(ctx, seen):
         bad = None
         if inst is None or 'encase::ShaderType' not in inst['derives']:
             bad = 'Inst does not derive encase::ShaderType'
+        elif [f[0] for f in inst['fields']] != DUAL_MEMBERS:
+            bad = f'Inst fields are emitted as {[f[0] for f in inst["fields"]]}, not in WGSL declaration order {DUAL_MEMBERS} (locations {lv})'
         else:
             for f in inst['fields']:
                 sem = decode_type(f[2])
@@ -174,8 +196,9 @@ def dual_role_check(ctx, seen):
         seen[key] = seen.get(key, 0) + 1
         if seen[key] > 1:
             continue
-        bad_n, n = native_encase(ctx, DUAL, ['Inst', 'Wrap'], 'dual', dict(OPTS, **opts))
-        ctx.report(key, f'{bad} with options {opts}', {'wgsl': DUAL, 'options': dict(OPTS, **opts), 'encase': bad_n}, bool(bad_n), bad_n)
+        wsrc = dual_src(lv)
+        bad_n, n = native_encase(ctx, wsrc, ['Inst', 'Wrap'], 'dual', dict(OPTS, **opts))
+        ctx.report(key, f'{bad} with options {opts}', {'wgsl': wsrc, 'options': dict(OPTS, **opts), 'encase': bad_n}, bool(bad_n), bad_n)
     return res
 
 
@@ -430,6 +453,8 @@ def run(ctx):
                      ('Inner derives encase::ShaderType', z3.BoolVal('Inner' in sts and 'encase::ShaderType' in sts['Inner']['derives']))]
             if host:
                 fd = {f[0]: f for f in host['fields']}
+                decl = [mb['name'] for mb in mj['types'][named['Host']]['inner']['Struct']['members']]
+                conds.append(('Host fields are emitted in WGSL declaration order', z3.BoolVal([f[0] for f in host['fields']] == decl)))
                 conds.append(('member m0 has the encase class of its WGSL type', class_ok(HA, decode_type(fd['m0'][2]))))
                 conds.append(('member m1 has the encase class of its WGSL type', class_ok(HB, decode_type(fd['m1'][2]), bm_for(HB))))
                 sem = decode_type(fd['tail'][2])
@@ -469,10 +494,10 @@ def run(ctx):
     ctx.extra['layout_lemma'] = 'unsat (layouts agree) for every struct shape in the bound without explicit attributes; sat with explicit @size/@align (known finding)'
     # ---------------------------------------------------------------- (3) native corpus through real encase + glam
     names = ['S1', 'S2', 'S3', 'S4', 'S5', 'S7', 'S8', 'S9', 'S10']
-    for extra in ({'derive_bytemuck_vertex': True}, {'derive_bytemuck_vertex': True, 'derive_serde': True}):
-        bad2, n2 = native_encase(ctx, DUAL, ['Inst', 'Wrap'], 'dual', dict(OPTS, **extra))
+    for extra, dsrc in (({'derive_bytemuck_vertex': True}, DUAL), ({'derive_bytemuck_vertex': True, 'derive_serde': True}, DUAL_SHUFFLED)):
+        bad2, n2 = native_encase(ctx, dsrc, ['Inst', 'Wrap'], 'dual', dict(OPTS, **extra))
         if bad2:
-            ctx.report('C10/native-dual-role', f'byte image differs from the WGSL layout with options {extra}: {bad2[0]}', {'wgsl': DUAL, 'options': dict(OPTS, **extra), 'encase': bad2}, True, bad2)
+            ctx.report('C10/native-dual-role', f'byte image differs from the WGSL layout with options {extra}: {bad2[0]}', {'wgsl': dsrc, 'options': dict(OPTS, **extra), 'encase': bad2}, True, bad2)
         else:
             ctx.replayed_ok += n2
     bad, n = native_encase(ctx, CORPUS, names, 'corpus')
